@@ -6,7 +6,7 @@ structure D where
   sp : C18.Spec := {}
 
 def step (d : D) (op impl : String) : D × DrvOut :=
-  let o := Drv.withVariant (Drv.parseOp op) impl
+  let o := Drv.parseOp op
   let (m', _, ans) := Drv.exec d.m o
   let sp' := C18.specOp d.sp o impl
   ({ m := m', sp := sp' }, { model := ans, spec := sp'.verdict })
